@@ -5,7 +5,7 @@
    byte sequences (lexcmp on utf8_encode). *)
 From Coq Require Import ZArith List Bool Sorted.
 From EV Require Import Res Arr UniqueSpec Unique UniqueOrder UniqueUtf8 UniqueSort UniqueStore UniqueIsin
-                       UniqueScan UniqueMain UniqueCor UniqueSafe UniqueContainer UniqueCoerce.
+                       UniqueScan UniqueMain UniqueCor UniqueSafe UniqueContainer UniqueCoerce UniqueHash.
 Import ListNotations.
 Open Scope Z_scope.
 
@@ -282,3 +282,37 @@ Proof.
   rewrite H1, H2. discriminate.
 Qed.
 Print Assumptions isin_float64_coercion_refuted.
+
+(* ---- hash buckets (region (f) of the generators) ---- *)
+(* full: for ANY function h of the bytes into ANY type with a reflexive equality test, the scan whose lookup compares a
+   row only with the values in the row's hash bucket (all of them) IS the scan of get_indexed_string_unique: values,
+   first-occurrence indices, inverse and counts do not depend on how the values are partitioned into buckets
+   (a partition induced by a function of the value is always consistent with equality).  With unique_scan_correct /
+   unique_indexed_correct: a correctly bucketed implementation satisfies the specification whatever its hash. *)
+Theorem unique_hash_bucket_independent : forall (B:Type) (h:list Z -> B) (beq:B -> B -> bool),
+  (forall b, beq b b = true) ->
+  forall wi wv wc ind vals,
+    get_indexed_string_unique_with (fun v us => find_equal_bucket B h beq v us 0) wi wv wc ind vals
+    = get_indexed_string_unique wi wv wc ind vals.
+Proof. exact UniqueHash.unique_hash_bucket_independent. Qed.
+Print Assumptions unique_hash_bucket_independent.
+
+Example hash_bucket_hyp_example : forall b:Z, Z.eqb b b = true.
+Proof. exact Z.eqb_refl. Qed.
+
+(* full: any lookup that agrees with the linear one yields the same scan *)
+Theorem unique_lookup_extensional : forall lookup,
+  (forall v us, lookup v us = find_equal v us 0) ->
+  forall wi wv wc ind vals,
+    get_indexed_string_unique_with lookup wi wv wc ind vals = get_indexed_string_unique wi wv wc ind vals.
+Proof. exact UniqueHash.get_unique_with_eq. Qed.
+Print Assumptions unique_lookup_extensional.
+
+(* refuted (R): a lookup that keeps ONE value per bucket (the latest) is a different function as soon as two different
+   values share a bucket and the earlier one recurs: h = len, then h*31+c; column 'Aa', 'BB', 'Aa' *)
+Theorem unique_hash_single_slot_refuted :
+  exists xs ind vals, stored xs ind vals /\
+    get_indexed_string_unique_with (find_equal_slot Z poly31 Z.eqb) true true true ind vals
+    <> get_indexed_string_unique true true true ind vals.
+Proof. exact UniqueHash.unique_hash_single_slot_refuted. Qed.
+Print Assumptions unique_hash_single_slot_refuted.
